@@ -52,6 +52,7 @@ type c27Case struct {
 	pin       byte   // Go side's Config.Rand pinned to this constant byte (0 = not pinned)
 	fixed     []byte // cached refpeer scalar for the pinned Go key
 	serverLeg bool   // Go server <- refpeer client instead of Go client -> refpeer server
+	guess     int    // (b): refpeer sets first_kex_packet_follows in every exchange (2 right, 3 wrong guess)
 }
 
 func (k c27Case) ext() *refpeer.Ext {
@@ -188,6 +189,9 @@ func (k *c27Case) fill(planSeed uint64, partB bool) {
 		}
 	}
 	k.userKey = int((h >> 60) % 3)
+	if partB {
+		k.guess = int((h >> 52) % 4) // 0,1: refpeer does not guess; 2: guesses right; 3: guesses wrong (Go prefers another kex)
+	}
 }
 
 // rekeyForced: the peer-side limits guarantee a *completed* re-key in the middle of the session.
@@ -228,6 +232,9 @@ func (k c27Case) classes(part string) []string {
 			leg = ":go-server-leg"
 		}
 		return []string{part + ":K=" + k.kclass, part + leg, part + ":kex=" + k.kex, part + ":" + pc, part + ":" + rc}
+	}
+	if k.guess >= 2 {
+		return []string{part + ":kex=" + k.kex, part + ":host=" + k.host, part + ":cipher=" + k.ciph, part + ":mac=" + k.effMAC(), part + ":" + pc, part + ":" + rc, part + ":refpeer-" + guessNames[k.guess-1]}
 	}
 	return []string{part + ":kex=" + k.kex, part + ":host=" + k.host, part + ":cipher=" + k.ciph, part + ":mac=" + k.effMAC(), part + ":" + pc, part + ":" + rc}
 }
@@ -476,6 +483,8 @@ func TestC27(t *testing.T) {
 	// (c) packet-cipher epochs next to counter / IV carries, Go framing against refpeer's
 	c.Oracle("refpeer packet ciphers (validated against the OpenSSH client) under the same key and IV as the Go packet cipher, counters placed next to their carry boundaries")
 	c27CounterEpochs(c, t, planSeed)
+	// (d) two writers on the Go side while refpeer holds a re-key open
+	c27Writers(c, t, planSeed)
 	if exh {
 		c.Exhaustive(fmt.Sprintf("(b) kex(%d) x host key algorithm(%d) x cipher/MAC effective pairs, Go client -> refpeer server", len(lb.kex), len(lb.host)), total)
 	} else {
@@ -634,7 +643,7 @@ func c27RunB(k c27Case) c27Outcome {
 	var rconn *refpeer.Conn
 	go func() {
 		s, err := refpeer.NewServer(b, refpeer.Config{Strict: true, ExtInfo: true, HostKeys: []refpeer.HostKey{hk}, HostKeyAlgos: []string{k.host},
-			Kex: []string{k.kex}, CiphersCS: []string{k.ciph}, MACsCS: []string{k.mac}, Ext: k.ext()})
+			Kex: []string{k.kex}, CiphersCS: []string{k.ciph}, MACsCS: []string{k.mac}, Ext: k.ext(), Guess: map[bool]*refpeer.Guess{true: {}}[k.guess >= 2]})
 		rconn = s
 		if err != nil {
 			sdone <- srv{err: err}
@@ -654,6 +663,10 @@ func c27RunB(k c27Case) c27Outcome {
 		cfg := &ssh.ClientConfig{User: "vf", Auth: []ssh.AuthMethod{ssh.PublicKeys(uk.signer)}, HostKeyCallback: goHostKeyCallback(k.host), HostKeyAlgorithms: []string{k.host}}
 		cfg.KeyExchanges, cfg.Ciphers, cfg.MACs = []string{k.kex}, []string{k.ciph}, []string{k.mac}
 		cfg.RekeyThreshold = k.goRekey
+		if k.guess == 3 {
+			ok, _ := guessOther(k.kex, k.host)
+			cfg.KeyExchanges = []string{ok, k.kex} // refpeer offers only k.kex: negotiated as before, but its guess is wrong
+		}
 		if k.pin != 0 {
 			cfg.Rand = constReader(k.pin)
 		}
